@@ -110,6 +110,9 @@ func runC09(c *Ctx) {
 	// --- C09.shortcut: the untouched early return is taken only when every effective operation is none
 	c.ruleShortcut(proc)
 	c.ruleEveryElement("C09.every")
+	c.ruleSweepUnknown("C09.value")
+	c.rulePointerKindGuard("C09.nilelem")
+	c.ruleTaggableTrackIdentity("C09.mark")
 	c.ruleTaggableFieldAlways("C09.handlers")
 
 	// --- C09.rotate
@@ -1294,6 +1297,7 @@ func runC10(c *Ctx) {
 	c.ruleExactLeafTypes()
 	c.ruleMarkFiltered("C10.mark")
 	c.ruleEveryElement("C10.every")
+	c.ruleTaggableTrackIdentity("C10.mark")
 	c.ruleTaggableFieldAlways("C10.public")
 	c.ruleTagPairAs("C10.tagpair")
 
